@@ -7,6 +7,7 @@
 From Coq Require Import Reals Lra String.
 From Coquelicot Require Import Coquelicot.
 Require Import QG.Model.Integrals QG.Proofs.Integrals QG.Gen.GenIntegrator QG.Proofs.IntegralsGen.
+Require Import QG.Gen.GenPulse QG.Proofs.IntegralsPulses.
 Open Scope R_scope.
 
 (* MAIN: for every pulse parametrisation F continuous on [0,1], every supported integrand k, every total angle theta and
@@ -100,6 +101,29 @@ Proof.
   - now apply const_pulse_agree.
 Qed.
 Print Assumptions C12_const_pulse_agree.
+
+(* The pulses pulse.py ships (Gen/GenPulse.v, regenerated from pulse.py): for each of them the hypotheses of
+   C12_integrate_spec are discharged - ConstantPulse is the only one with use_lookup = True and its parametrisation is
+   the identity; a Gaussian pulse accepted by its constructor is continuous (C13) and integrated numerically.
+   pdf, cdf stand for scipy.stats.norm.pdf/cdf (trusted: cdf' = pdf, pdf >= 0, pdf continuous). *)
+Theorem C12_shipped_pulses :
+  forall (k : key) (theta a : R), 0 < a ->
+  is_RInt (fun t => g k (theta * ConstantPulse_parametrization (t / a))) 0 a
+          (integrate_cold ConstantPulse_use_lookup ConstantPulse_parametrization k theta a) /\
+  is_RInt (fun t => g k (theta * ConstantPulseNumerical_parametrization (t / a))) 0 a
+          (integrate_cold ConstantPulseNumerical_use_lookup ConstantPulseNumerical_parametrization k theta a) /\
+  forall (pdf cdf : R -> R -> R -> R) (loc scale : R),
+  (forall x, is_derive (fun y => cdf y loc scale) x (pdf x loc scale)) ->
+  (forall x, 0 <= pdf x loc scale) ->
+  (forall x, continuous (fun y => pdf y loc scale) x) ->
+  validate_inputs_ok cdf loc scale ->
+  is_RInt (fun t => g k (theta * GaussianPulse_parametrization cdf loc scale (t / a))) 0 a
+          (integrate_cold GaussianPulse_use_lookup (GaussianPulse_parametrization cdf loc scale) k theta a).
+Proof.
+  intros k theta a Ha. split; [now apply constant_pulse_integrate | split; [now apply constant_pulse_numerical_integrate |]].
+  intros pdf cdf loc scale Hd Hp Hc Hacc. now apply (gaussian_pulse_integrate pdf cdf loc scale).
+Qed.
+Print Assumptions C12_shipped_pulses.
 
 (* Non-vacuity: the hypotheses are satisfiable (a = 33/10, a smooth non-constant F with F 0 = 0, F 1 = 1), and one
    value: the analytic route at theta = PI, a = 1 for sin^2 gives 1/2. *)
